@@ -591,11 +591,12 @@ impl WorldC {
                 Ok(p) => p,
                 Err(abort) => {
                     // a listing that aborts: report under C03 (status cannot be read); discriminate the C06 consequence
+                    let tainted = self.msigs[mi].props.values().any(|t| t.group_changed_earlier_in_block);
                     self.viol(
                         out,
                         "C03",
                         if abort { "proposal-query-abort" } else { "proposal-query-error" },
-                        json!({"flex": self.msigs[mi].flex}),
+                        json!({"flex": self.msigs[mi].flex, "a_proposal_was_opened_after_a_same_block_group_change": tainted}),
                         format!("ListProposals on {} failed", label),
                     );
                     continue;
@@ -608,6 +609,25 @@ impl WorldC {
                 }
             }
             let n = props.len();
+            // the three views of a proposal (Proposal{id}, ListProposals, ReverseProposals) must tell the same story
+            let rev: Vec<ProposalResponse> = self
+                .chain
+                .query::<cw3::ProposalListResponse>(&label, &json!({"reverse_proposals":{"start_before": null, "limit": 30}}))
+                .map(|r| r.proposals)
+                .unwrap_or_default();
+            for rp in &rev {
+                if let Some(lp) = props.iter().find(|x| x.id == rp.id) {
+                    if lp != rp {
+                        self.viol(
+                            out,
+                            "C03",
+                            "proposal-views-disagree",
+                            json!({"views": "list-vs-reverse"}),
+                            format!("proposal {}: ListProposals says {:?}, ReverseProposals says {:?}", rp.id, lp.status, rp.status),
+                        );
+                    }
+                }
+            }
             let mut snapshot_json = vec![];
             for (pi, p) in props.iter().enumerate() {
                 let known = self.msigs[mi].props.contains_key(&p.id);
@@ -627,6 +647,31 @@ impl WorldC {
                 } else {
                     None
                 };
+                if deep {
+                    match self.chain.query::<ProposalResponse>(&label, &json!({"proposal":{"proposal_id": p.id}})) {
+                        Ok(pp) => {
+                            if pp != *p {
+                                self.viol(
+                                    out,
+                                    "C03",
+                                    "proposal-views-disagree",
+                                    json!({"views": "point-vs-list"}),
+                                    format!("proposal {}: Proposal{{}} says {:?}, ListProposals says {:?}", p.id, pp.status, p.status),
+                                );
+                            }
+                        }
+                        Err(abort) => {
+                            let tainted = self.msigs[mi].props.get(&p.id).map(|t| t.group_changed_earlier_in_block).unwrap_or(false);
+                            self.viol(
+                                out,
+                                "C03",
+                                if abort { "proposal-query-abort" } else { "proposal-query-error" },
+                                json!({"flex": self.msigs[mi].flex, "a_proposal_was_opened_after_a_same_block_group_change": tainted}),
+                                format!("Proposal{{{}}} failed", p.id),
+                            )
+                        }
+                    }
+                }
                 self.check_proposal(mi, p, votes.as_deref(), &block, out);
                 snapshot_json.push(json!({"id": p.id, "status": format!("{:?}", p.status), "votes": votes.as_ref().map(|v| v.len())}));
             }
